@@ -527,6 +527,34 @@ func (w *walker) condGuarded(holds, fails func(ast.Expr) bool) bool {
 	return false
 }
 
+// boundCheckedClass: `x[i]` with i of an UNSIGNED integer type, under `i < len(x)` / `int(i) < len(x)` (if-body, right operand
+// of &&, or after a terminating `if i >= len(x)`)
+func (w *walker) boundCheckedClass(x *ast.IndexExpr, base string) string {
+	tv, ok := w.info.Types[x.Index]
+	if !ok {
+		return ""
+	}
+	bt, ok := tv.Type.Underlying().(*types.Basic)
+	if !ok || bt.Info()&types.IsUnsigned == 0 {
+		return ""
+	}
+	idx := exprStr(x.Index)
+	same := func(e ast.Expr) bool {
+		s := exprStr(e)
+		return s == idx || s == "int("+idx+")"
+	}
+	cmp := func(op token.Token) func(ast.Expr) bool {
+		return func(e ast.Expr) bool {
+			be, ok := e.(*ast.BinaryExpr)
+			return ok && be.Op == op && same(be.X) && lenOf(be.Y, base)
+		}
+	}
+	if w.condGuarded(cmp(token.LSS), cmp(token.GEQ)) {
+		return "unsigned index under a bound check against the length of the same slice"
+	}
+	return ""
+}
+
 // searchIndexClass: `x[i]` where `i := slices.Index…(x, …)` (or strings.Index… for a string) and i is known to be non-negative
 func (w *walker) searchIndexClass(x *ast.IndexExpr, id *ast.Ident, base string) string {
 	call, ok := w.singleDef(id.Name).(*ast.CallExpr)
@@ -642,6 +670,9 @@ func (w *walker) indexClass(x *ast.IndexExpr) string {
 			return "index from the end under a length check"
 		}
 		return ""
+	}
+	if c := w.boundCheckedClass(x, base); c != "" {
+		return c
 	}
 	id, ok := x.Index.(*ast.Ident)
 	if !ok {
@@ -1175,7 +1206,23 @@ func main() {
 									if o, ok := info.Defs[fd.Name].(*types.Func); ok {
 										selfMod = modFunc(o)
 									}
-									mustSites = append(mustSites, [2]string{selfMod, fn + ": " + keyStr(info, x.Fun)})
+									own := false
+									if tv, ok := info.Types[sel.X]; ok {
+										t := tv.Type
+										if pt, ok := t.(*types.Pointer); ok {
+											t = pt.Elem()
+										}
+										if nt, ok := t.(*types.Named); ok && nt.Obj().Pkg() != nil && strings.HasSuffix(nt.Obj().Pkg().Path(), "internal/gontainer") {
+											own = true
+										}
+									}
+									if own {
+										// a Must-getter of the tool's OWN generated container: what it builds is the shipped wiring (C19), the same on
+										// every run — a broken wiring fails every run, whatever the input
+										guarded["Must getter of the tool's own generated container"]++
+									} else {
+										mustSites = append(mustSites, [2]string{selfMod, fn + ": " + keyStr(info, x.Fun)})
+									}
 								}
 								if callee == "strings.Repeat" {
 									panics = append(panics, fn+": strings.Repeat")
